@@ -74,7 +74,7 @@ def batch_jobs(ctx, exe, tag, args, nb):
         if rp.get("build") and rp["build"] != tag:
             return []
         if rp.get("index") is not None:
-            return [{"cmd": base + ["--only", str(rp["index"])], "tag": tag}]
+            return [{"cmd": base + ["--only", str(rp["index"])] + (["--addr", str(rp["addr"])] if rp.get("addr") else []), "tag": tag}]
     for b in range(nb):
         jobs.append({"cmd": base + ["--batch", str(b), "--nbatches", str(nb)], "tag": tag})
     return jobs
@@ -88,11 +88,12 @@ def load_replay(ctx):
     with open(path) as f:
         r = json.load(f)
     d = r.get("descriptor") or {}
-    idx = None
+    idx = addr = None
     for c in (d.get("case"), (d.get("detail") or {}).get("case") if isinstance(d.get("detail"), dict) else None):
         if isinstance(c, dict) and "i" in c:
             idx = c["i"]
-    ctx.replay = {"build": d.get("build"), "index": idx, "key": r.get("key")}
+            addr = c.get("addr")
+    ctx.replay = {"build": d.get("build"), "index": idx, "key": r.get("key"), "addr": addr}
     ctx.seed = int(r.get("seed", ctx.seed))
     ctx.tier = r.get("tier", ctx.tier)
     ctx.log("replaying %s (build=%s case=%s seed=%d tier=%s)" % (r.get("key"), d.get("build"), idx, ctx.seed, ctx.tier))
